@@ -481,6 +481,7 @@ fn handle(cmd: &str, args: &[&str]) -> String {
         "cond" => cond(args),
         "cond_long" => cond_long(args),
         "backend" => backend_kernel::backend(args),
+        "backendx" => backend_kernel::backendx(args),
         "tcp" => tcp(args),
         "proto" => proto(args),
         "proto_names" => proto_names(),
